@@ -3,12 +3,13 @@ import NoteSeqVerif.Proofs.C06Drums
 import NoteSeqVerif.Proofs.C06Chords
 import NoteSeqVerif.Proofs.C06Roll
 import NoteSeqVerif.Proofs.C06Melody
+import NoteSeqVerif.Proofs.C06MelExtract
 /-! C06 — property theorems (DESIGN 6.6): rendering a canonical event sequence to notes, quantizing at the same
 resolution and extracting again is the identity — at every tempo `qpm > 0`, every resolution, every start step,
 with the float arithmetic the Python performs (`R` = any rounding operator with `Rounding R`, in particular
 `rne53` = IEEE binary64), no bound on the length other than `start + length < 2^40`.
 
-Float half: `Proofs/C06Float.lean` (`render_quantize_exact`).  Discrete halves: `Proofs/C06{Drums,Chords,Roll,MelNotes,Melody}.lean`,
+Float half: `Proofs/C06Float.lean` (`render_quantize_exact`).  Discrete halves: `Proofs/C06{Drums,Chords,Roll,MelNotes,Melody,MelCanon,MelExtract}.lean`,
 through the specification theorems of C07.  Here the two are composed per type, together with
 `extract_canonical_*` (the canonical predicate is exactly what extraction produces) and non-vacuity examples. -/
 namespace NSV.C06
@@ -126,8 +127,8 @@ theorem roundtrip_Chords (hR : Rounding R) (ev : List String) (S spq : ℤ) (qpm
 `0 ≤ start < end` is canonical (a non-empty list of `end − start` figures at `start`). -/
 theorem extract_canonical_Chords (s : NoteSeq) (start end_ : ℤ) (h0 : 0 ≤ start) (hse : start < end_)
     (r : SimpleResult String) (hr : chordsFromQuantized s start end_ = .ok r) :
-    CanonicalChords r.startStep r.events ∧ r.startStep = start ∧ r.endStep = r.startStep + r.events.length ∧
-      r.stepsPerQuarter = s.spq :=
+    CanonicalChords r.startStep r.events ∧ r.startStep = start ∧ r.endStep = end_ ∧
+      r.endStep = r.startStep + r.events.length ∧ r.stepsPerQuarter = s.spq :=
   chords_extract_canonical s start end_ h0 hse r hr
 
 /-- non-vacuity: the list starts with NO_CHORD (hex `x4e2e432e`), changes, returns to NO_CHORD, repeats a figure -/
@@ -249,6 +250,18 @@ theorem roundtrip_Melody (hR : Rounding R) (ev : List ℤ) (S spq vel inst prog 
     (stepsPerBar_stepped _ _ _ _ _ _ _ _ _ _ _ _ hspq hspq') (by omega) hgap hvel rfl hc]
   rfl
 
+/-- **`extract_canonical_Melody`**: whatever `Melody.from_quantized_sequence` returns — on any quantized sequence with a
+positive bar length whose selected notes have positive length and MIDI pitches, any `search_start_step ≥ 0`,
+`gap_bars`, `pad_end`, `ignore_polyphonic_notes`, `filter_drums` — satisfies `CanonicalMelody` for the same
+parameters (and `end_step = start_step + len`). -/
+theorem extract_canonical_Melody (s : NoteSeq) (ss inst gapBars : ℤ) (ip pad fd : Bool) (spb : ℤ)
+    (hspb : stepsPerBar s = .ok spb) (hpos : 0 < spb) (hss : 0 ≤ ss)
+    (hvalid : ∀ n ∈ s.notes, melSel ss inst fd n = true → n.qs < n.qe ∧ 0 ≤ n.pitch ∧ n.pitch ≤ 127)
+    (r : SimpleResult ℤ) (hr : melodyFromQuantized s ss inst gapBars ip pad fd = .ok r) :
+    CanonicalMelody spb (gapBars * spb) pad ss r.startStep r.events ∧
+      r.endStep = r.startStep + r.events.length ∧ r.stepsPerBar = spb ∧ r.stepsPerQuarter = s.spq :=
+  melody_extract_canonical s ss inst gapBars ip pad fd spb hspb hpos hss hvalid r hr
+
 /-- non-vacuity: a bar and a half at 2 steps per quarter: leading rest, a note cut by the next, a NOTE_OFF, silence one
 step short of the one-bar gap, a final note sustained to the end; start step 16, search from step 8 -/
 example : tripMelody rne53 [-2, 60, -2, 62, -1, -2, -2, -2, -2, -2, -2, 64, -2] 16 2 100 0 0 0 (rne53 (100 / 3))
@@ -310,11 +323,100 @@ theorem roundtrip_LeadSheet (hR : Rounding R) (mel : List ℤ) (ch : List String
   rw [hl', chords_discrete _ _ ch S (4 * spq) hspb rfl hchne]
   rfl
 
+/-- **`extract_canonical_LeadSheet`**: a non-empty melody returned by the melody extractor together with the chords
+returned by the chord extractor over the melody's `[start_step, end_step)` is a canonical lead sheet (the two have
+the same length and start step, which is what the `LeadSheet` constructor demands). -/
+theorem extract_canonical_LeadSheet (s : NoteSeq) (ss inst gapBars : ℤ) (ip pad fd : Bool) (spb : ℤ)
+    (hspb : stepsPerBar s = .ok spb) (hpos : 0 < spb) (hss : 0 ≤ ss)
+    (hvalid : ∀ n ∈ s.notes, melSel ss inst fd n = true → n.qs < n.qe ∧ 0 ≤ n.pitch ∧ n.pitch ≤ 127)
+    (m : SimpleResult ℤ) (hm : melodyFromQuantized s ss inst gapBars ip pad fd = .ok m) (hne : m.events ≠ [])
+    (c : SimpleResult String) (hc : chordsFromQuantized s m.startStep m.endStep = .ok c) :
+    CanonicalLeadSheet spb (gapBars * spb) pad ss m.startStep m.events c.events ∧
+      c.startStep = m.startStep ∧ c.endStep = m.endStep := by
+  obtain ⟨hcm, hend, _, _⟩ := melody_extract_canonical s ss inst gapBars ip pad fd spb hspb hpos hss hvalid m hm
+  have hS : 0 ≤ m.startStep := by
+    rcases hcm with ⟨h, _⟩ | ⟨_, _, h1, h2, _⟩
+    · exact absurd h hne
+    · omega
+  have hlen : 0 < m.events.length := List.length_pos_iff.mpr hne
+  obtain ⟨_, h1, h3, h2, _⟩ := chords_extract_canonical s m.startStep m.endStep hS (by omega) c hc
+  refine ⟨⟨hne, hcm, ?_⟩, h1, h3⟩
+  have : (c.events.length : ℤ) = m.events.length := by omega
+  exact_mod_cast this
+
 /-- non-vacuity: one bar at 1 step per quarter with a chord change on the third step -/
 example : tripLeadSheet rne53 [60, -2, 62, -2] ["x43", "x43", "x4737", "x4737"] 4 1 100 0 0 (rne53 (100 / 3))
       0 1 false false true =
     .ok (⟨[60, -2, 62, -2], 4, 8, 4, 1⟩, ⟨["x43", "x43", "x4737", "x4737"], 4, 8, 4, 1⟩) :=
   roundtrip_LeadSheet rounding_rne53 _ _ 4 1 100 0 _ 0 1 false false true (by decide +kernel) (by decide)
     (by decide) (by decide) (by decide) (by decide) (by decide)
+
+/-! ## non-vacuity of the `extract_canonical_*` theorems: C07's example sequence `exRel` (4 steps per quarter, 4/4:
+a drum hit, a two-note chord, abutting notes, a note two bars later, chord annotations) -/
+
+example : ∃ r, drumsFromQuantized exRel 0 1 true true = .ok r ∧
+    CanonicalDrums 16 (1 * 16) true 0 r.startStep r.events ∧ r.events ≠ [] := by
+  have h : (drumsFromQuantized exRel 0 1 true true).toBool = true := by decide +kernel
+  have hl : (match drumsFromQuantized exRel 0 1 true true with | .ok r => r.events.length | .error _ => 0) ≠ 0 := by
+    decide +kernel
+  cases hr : drumsFromQuantized exRel 0 1 true true with
+  | error e => rw [hr] at h; exact absurd h (by simp [Except.toBool])
+  | ok r =>
+    refine ⟨r, rfl, (extract_canonical_Drums exRel 0 1 true true 16 exRel_spb (by decide) (by decide) r hr).1, ?_⟩
+    intro h3
+    simp only [hr, h3, List.length_nil, ne_eq, not_true_eq_false] at hl
+
+/-- the melody of `exRel` on instrument 0 (polyphony ignored): the kept notes are 64@0–2, 60@2–4, 60@4–6 -/
+theorem exRel_melody : ∃ evs, melodyFromQuantized exRel 0 0 1 true false true = .ok ⟨evs, 0, 6, 16, 4⟩ ∧
+    evs.length = 6 := by
+  obtain ⟨last, evs, hlast, hres, hlen, _⟩ :=
+    (melody_steps exRel 0 0 1 true false true 16 exRel_spb (by decide) exRel_melValid _ _ exRel_melSorted).2 (by simp)
+  have hk : keptFrom (1 * 16) (exNote 64 0 2) [exNote 55 0 2, exNote 60 2 4, exNote 60 4 6, exNote 62 24 26] =
+      [exNote 60 2 4, exNote 60 4 6] := by decide +kernel
+  rw [hk] at hlast
+  simp only [List.getLast?_cons_cons, List.getLast?_singleton, Option.some.injEq] at hlast
+  subst hlast
+  have hs : (exNote 64 0 2).qs - Int.fmod ((exNote 64 0 2).qs - 0) 16 = 0 := by decide +kernel
+  rw [hs] at hres hlen
+  have hl6 : evs.length = 6 := by
+    have : (evs.length : ℤ) = 6 := by rw [hlen]; decide +kernel
+    exact_mod_cast this
+  refine ⟨evs, ?_, hl6⟩
+  rw [hres, hl6]
+  rfl
+
+example : ∃ r, melodyFromQuantized exRel 0 0 1 true false true = .ok r ∧
+    CanonicalMelody 16 (1 * 16) false 0 r.startStep r.events ∧ r.events ≠ [] := by
+  obtain ⟨evs, hr, hl⟩ := exRel_melody
+  refine ⟨_, hr, (extract_canonical_Melody exRel 0 0 1 true false true 16 exRel_spb (by decide) (by decide)
+    (by decide) _ hr).1, ?_⟩
+  intro h3
+  simp only at h3
+  rw [h3] at hl; simp at hl
+
+example : ∃ r, chordsFromQuantized exRel 0 12 = .ok r ∧ CanonicalChords r.startStep r.events := by
+  obtain ⟨E, hr, _, _⟩ := chords_steps exRel 0 12 16 exRel_spb (by decide) exRel_noCoincidence
+  exact ⟨_, hr, (extract_canonical_Chords exRel 0 12 (by decide) (by decide) _ hr).1⟩
+
+example : ∃ r, rollFromQuantized exRel 0 55 64 true = .ok r ∧ CanonicalPianoroll 55 64 r.startStep r.events ∧
+    r.events.length = 26 := by
+  obtain ⟨evs, hr, hlen, _⟩ := pianoroll_frame_mem exRel 0 55 64 true (by decide) (by decide) (by decide) (by decide)
+  have hr' : rollFromQuantized exRel 0 55 64 true = .ok ⟨evs, 0, exRel.spq⟩ := by
+    unfold rollFromQuantized; rw [hr]
+  refine ⟨_, hr', (extract_canonical_Pianoroll exRel 0 55 64 true (by decide) _ hr').1, ?_⟩
+  have : (evs.length : ℤ) = 26 := by rw [hlen]; decide
+  exact_mod_cast this
+
+example : ∃ m c, melodyFromQuantized exRel 0 0 1 true false true = .ok m ∧
+    chordsFromQuantized exRel m.startStep m.endStep = .ok c ∧
+    CanonicalLeadSheet 16 (1 * 16) false 0 m.startStep m.events c.events := by
+  obtain ⟨evs, hm, hl⟩ := exRel_melody
+  have hnc : ¬ ChordsCoincident exRel 0 6 := by
+    rintro ⟨a, ha, b, hb, h1, h2, h3, h4, h5, h6⟩
+    exact exRel_noCoincidence ⟨a, ha, b, hb, h1, h2, h3, h4, by omega, h6⟩
+  obtain ⟨E, hc, _, _⟩ := chords_steps exRel 0 6 16 exRel_spb (by decide) hnc
+  have hne : evs ≠ [] := by intro h; rw [h] at hl; simp at hl
+  exact ⟨_, _, hm, hc, (extract_canonical_LeadSheet exRel 0 0 1 true false true 16 exRel_spb (by decide)
+    (by decide) (by decide) _ hm hne _ hc).1⟩
 
 end NSV.C06
